@@ -76,7 +76,7 @@ pub fn run(ctx: &Ctx) -> i32 {
     }).reduce(Acc::new, Acc::merge);
 
     // (a') shapes at head-width boundaries and beyond the small-scope family
-    let wide = families::wide_tier(th);
+    let wide = families::wide_all(th);
     let aw = wide.par_iter().enumerate().with_max_len(1).map(|(wi, (wn, m))| {
         let mut acc = Acc::new();
         for (rn, r) in [("add_assertion_envelope/order0", Route::Envelopes(0)), ("add_assertion_envelope/order1", Route::Envelopes(1)), ("add_assertion_envelope/order7", Route::Envelopes(7)), ("add_assertion", Route::PredObj(3)), ("decode", Route::Decode), ("add_assertion_envelopes", Route::Batch)] {
